@@ -12,6 +12,7 @@ class G:
     def __init__(self, r):
         self.r = r
         self.n = 0
+        self.all_ids = r.random() < 0.7
         self.ids = []       # ids of real tree nodes (steps, branches, acts, catch/timeout sub-steps, on entries, root)
 
     def nid(self, p):
@@ -50,6 +51,8 @@ class G:
             # setup statements are templates instantiated at run time, not tree nodes
             self.opt(a, 'id', lambda: 'h%d' % self.r.randint(0, 10 ** 6))
             a['on'] = self.r.choice(['created', 'completed', 'before_update', 'updated', 'step'])
+        elif self.all_ids:
+            a['id'] = self.nid('a')
         else:
             self.opt(a, 'id', lambda: self.nid('a'))
         self.opt(a, 'name', self.txt)
@@ -150,6 +153,60 @@ def expected_tree(w):
     return lines
 
 
+def expected_nodes(w):
+    """independent computation of the execution tree: id -> {kind, level, parent, next, prev, children[(typ, on, id)]}"""
+    N = {}
+
+    def node(i, kind, level):
+        N[i] = {'kind': kind, 'level': level, 'parent': None, 'next': None, 'prev': None, 'children': []}
+
+    def steps(lst, parent, level, typ, on):
+        prev = None
+        for st in lst or []:
+            i = st['id']
+            node(i, 'step', level)
+            if prev is None:
+                N[i]['parent'] = parent
+                N[parent]['children'].append((typ, on, i))
+            else:
+                N[prev]['next'] = i
+                N[i]['prev'] = prev
+                N[i]['parent'] = parent          # parent() of a chained node walks the prev links
+            for b in st.get('branches') or []:
+                node(b['id'], 'branch', level + 1)
+                N[b['id']]['parent'] = i
+                N[i]['children'].append(('Normal', None, b['id']))
+                steps(b.get('steps'), b['id'], level + 2, 'Normal', None)
+            pa = None
+            for a in st.get('acts') or []:
+                node(a['id'], 'act', level + 1)
+                if pa is None:
+                    N[a['id']]['parent'] = i
+                    N[i]['children'].append(('Normal', None, a['id']))
+                else:
+                    N[pa]['next'] = a['id']
+                    N[a['id']]['prev'] = pa
+                    N[a['id']]['parent'] = i
+                pa = a['id']
+                for c in a.get('catches') or []:
+                    steps(c.get('steps'), a['id'], level + 2, 'Catch', c.get('on'))
+                for t in a.get('timeout') or []:
+                    steps(t.get('steps'), a['id'], level + 2, 'Timeout', t.get('on'))
+            for c in st.get('catches') or []:
+                steps(c.get('steps'), i, level + 1, 'Catch', c.get('on'))
+            for t in st.get('timeout') or []:
+                steps(t.get('steps'), i, level + 1, 'Timeout', t.get('on'))
+            prev = i
+    node(w['id'], 'workflow', 0)
+    steps(w.get('steps'), w['id'], 1, 'Normal', None)
+    return N
+
+
+def all_named(w):
+    from monitors import walk_nodes
+    return all(n.get('id') for n, kind, where in walk_nodes(w))
+
+
 def parse_tree(t):
     out = []
     for l in t.splitlines():
@@ -243,6 +300,28 @@ class ModelFamily:
         rows2 = [r for r in (ev2.get('rows') or []) if r['mid'] == w['id']]
         if rows2:
             out.append(V('C20', 'events-left-after-model-rm', '', f"{len(rows2)} events of the removed model remain", scenario=sid))
+        # the execution tree itself (normal, catch and timeout outputs), when every node of the model is named
+        nodes = rt.get('nodes')
+        if isinstance(nodes, dict) and 'nodes' in nodes and all_named(w):
+            exp = expected_nodes(w)
+            got = {n['id']: {'kind': n['kind'], 'level': n['level'], 'parent': n['parent'], 'next': n['next'], 'prev': n['prev'],
+                             'children': [(c['typ'], c['on'], c['id']) for c in n['children']]} for n in nodes['nodes']}
+            obs['c20.structure-compares'] += 1
+            obs['c20.structure-nodes'] += len(exp)
+            if set(exp) != set(got):
+                out.append(V('C20', 'tree-node-set', 'missing' if set(exp) - set(got) else 'extra', f"execution tree nodes: missing {sorted(set(exp) - set(got))[:4]} extra {sorted(set(got) - set(exp))[:4]}", scenario=sid))
+            else:
+                for i, e in exp.items():
+                    g = got[i]
+                    bad = [f for f in ('kind', 'level', 'parent', 'next', 'prev') if e[f] != g[f]]
+                    if sorted(map(str, e['children'])) != sorted(map(str, g['children'])):
+                        bad.append('children')
+                    elif e['children'] != g['children']:
+                        bad.append('children-order')
+                    if bad:
+                        where = 'catch' if any(c[0] == 'Catch' for c in e['children'] + g['children']) else 'timeout' if any(c[0] == 'Timeout' for c in e['children'] + g['children']) else 'normal'
+                        out.append(V('C20', 'tree-structure', f"{e['kind']}:{','.join(bad)}:{where}", f"node {i}: expected {{ {', '.join(f'{f}: {e[f]}' for f in bad if f in e)} }} got {{ {', '.join(f'{f}: {g[f]}' for f in bad if f in g)} }} children exp {e['children']} got {g['children']}", scenario=sid))
+                        break
         # tree listing
         if gt['ok']:
             exp = expected_tree(w)
